@@ -100,11 +100,19 @@ class SymRandom(types.ModuleType):
 
     def reset(self):
         self._n = 0
+        self._nchoice = 0
+        self.free_choices = None
+
+    free_choices = None       # when set: only the first N calls of choice() are explored, later ones return the first element
 
     def choice(self, seq):
         seq = list(seq)
         if not seq:
             raise IndexError("Cannot choose from an empty sequence")
+        if self.free_choices is not None:
+            self._nchoice = getattr(self, "_nchoice", 0) + 1
+            if self._nchoice > self.free_choices:
+                return seq[0]
         return seq[self._eng().choose(len(seq), "random.choice")]
 
     def random(self):
@@ -170,11 +178,19 @@ class ScriptedRandom(types.ModuleType):
 
     def reset(self):
         self._n = 0
+        self._nchoice = 0
+        self.free_choices = None
+
+    free_choices = None       # when set: only the first N calls of choice() are explored, later ones return the first element
 
     def choice(self, seq):
         seq = list(seq)
         if not seq:
             raise IndexError("Cannot choose from an empty sequence")
+        if self.free_choices is not None:
+            self._nchoice = getattr(self, "_nchoice", 0) + 1
+            if self._nchoice > self.free_choices:
+                return seq[0]
         return seq[self._eng().choose(len(seq), "random.choice")]
 
     def random(self):
